@@ -204,7 +204,11 @@ def decodeResponse (abort : Bool) (tb : MsgTables) (cc : Option Int) (encFlag : 
   if vInt rcv != some tb.rcSuccess then finish vals s else
   let sess := vInt tag == some tb.sessionsTag
   match cc.bind (lookupTy tb.rspHandles) with
-  | none => crash "NameError" "process_response: selector_name" s
+  | none =>
+    -- the command code has no response layouts, or there is none at all: `ValueConstraintViolatedError` in both modes
+    .error ((match cc with
+      | some c => Err.value (path ++ [⟨"commandCode", none⟩]) tb.cc.name c
+      | none => Err.valueNone (path ++ [⟨"commandCode", none⟩]) tb.cc.name), s)
   | some hty =>
   mc vals (decodeArea abort tb encFlag hty (path ++ [⟨"handles", none⟩]) s) fun hv s =>
   let vals := vals ++ [("handles", hv)]
@@ -220,7 +224,10 @@ def decodeResponse (abort : Bool) (tb : MsgTables) (cc : Option Int) (encFlag : 
     else k vals s
   psize s fun vals s =>
   match cc.bind (lookupTy tb.rspParams) with
-  | none => crash "NameError" "process_response: selector_name" s
+  | none =>
+    .error ((match cc with
+      | some c => Err.value (path ++ [⟨"commandCode", none⟩]) tb.cc.name c
+      | none => Err.valueNone (path ++ [⟨"commandCode", none⟩]) tb.cc.name), s)
   | some pty =>
   -- `parameter_size_constraint.assert_done()` runs inside the same `try` as the parameter area
   mc vals ((decodeArea abort tb encFlag pty (path ++ [⟨"parameters", none⟩]) s).bind fun pv s =>
